@@ -28,26 +28,22 @@ def kani_counterexample(scratch, harness, stubbed, timeout_s=900):
            '--concrete-playback=' + mode, '--harness', harness, '--exact']
     p = subprocess.run(cmd, cwd=scratch, env=env, stdout=subprocess.PIPE, stderr=subprocess.STDOUT, text=True)
     out = p.stdout
-    m = re.search(r'(#\[test\]\s*fn (kani_concrete_playback_\w+)\(\)\s*\{.*?\n\})', out, re.S)
-    test_name = None
-    if m:
-        res['concrete_values'] = m.group(1)[:6000]
-        test_name = m.group(2)
-    else:
-        mm = re.search(r'(kani_concrete_playback_\w+)', out)
-        if mm:
-            test_name = mm.group(1)
+    tests = re.findall(r'(#\[test\]\s*fn (kani_concrete_playback_\w+)\(\)\s*\{.*?\n\})', out, re.S)
+    short = harness.split('::')[-1]
+    test_name = 'kani_concrete_playback_' + short      # prefix filter: runs every generated test (failed checks and satisfied covers)
+    if tests:
+        res['concrete_values'] = '\n'.join(t[0] for t in tests)[:8000]
     res['kani_cmd'] = ' '.join(cmd)
     if not stubbed and test_name:
         if res['concrete_values'] is None:
-            # inplace mode wrote the test into the harness file copy; pick it up
-            for root, _, files in os.walk(os.path.dirname(scratch)):
-                for f in files:
-                    if f.endswith('.rs') and root == os.path.dirname(scratch):
-                        t = open(os.path.join(root, f)).read()
-                        m2 = re.search(r'(#\[test\]\s*fn ' + test_name + r'\(\)\s*\{.*?\n\})', t, re.S)
-                        if m2:
-                            res['concrete_values'] = m2.group(1)[:6000]
+            # inplace mode wrote the tests into the harness file copy; pick them up
+            d = os.path.dirname(scratch)
+            for f in os.listdir(d):
+                if f.endswith('.rs'):
+                    t = open(os.path.join(d, f)).read()
+                    ts = re.findall(r'(#\[test\]\s*fn ' + test_name + r'\w*\(\)\s*\{.*?\n\})', t, re.S)
+                    if ts:
+                        res['concrete_values'] = '\n'.join(ts)[:8000]
         cmd2 = ['timeout', str(timeout_s), 'cargo', 'kani', 'playback', '-Z', 'concrete-playback', '--', test_name]
         p2 = subprocess.run(cmd2, cwd=scratch, env=env, stdout=subprocess.PIPE, stderr=subprocess.STDOUT, text=True)
         res['native_cmd'] = ' '.join(cmd2)
@@ -64,7 +60,8 @@ def build(pid, o, P, repo, work, verus_results, kani_out):
     try:
         if o['backend'].startswith('kani'):
             scratch = os.path.join(work, 'repo')
-            stubbed = bool(o.get('stubs'))
+            # stubs of formatting / logging only replace text production: the native run uses the real functions
+            stubbed = any(not re.search(r'fmt :: format|log :: max_level', st) for st in (o.get('stubs') or []))
             ce = kani_counterexample(scratch, o['harness'], stubbed)
             rp['counterexample'] = ce
             if ce.get('native_confirmation'):
